@@ -28,7 +28,15 @@ def tmplList : List Pat → List Sexp
       | p => tmpl1 p :: tmplList ps
 end
 
-/-! ### Well-formed patterns (what `parse_from_list` produces, minus the class of finding K13e) -/
+/-! ### Well-formed patterns (what `parse_from_list` produces) -/
+
+/-- The pattern list is exactly `(p ... . r)`: steel's `non_list_match` lets it match a form `f` that is not
+a list (an improper list without elements: `p… = ()`, `r = f`).  The bindings are right, but instantiating
+the pattern as a template yields the one-element improper list `( . f)` that steel's `make_improper` does not
+normalise to `f` — so this shape is excluded in nested positions of `match_exact`. -/
+def isManyRest : List Pat → Bool
+  | [.many _, .rest _] => true
+  | _ => false
 
 mutual
 /-- A pattern that consumes exactly one form. -/
@@ -38,25 +46,31 @@ def wf1 : Pat → Bool
   | .kwlit k => k != Kw.ellipsis
   | .cint _ => true
   | .cbool _ => true
-  | .nested ps => wfList ps
+  | .nested ps => wfList ps && !isManyRest ps
   | .many _ => false
   | .rest _ => false
-/-- A pattern list: one-form patterns, at most one ellipsis (then no dotted tail), or a dotted tail that
-is a variable. -/
+/-- A pattern list: one-form patterns, at most one ellipsis, optionally a dotted tail that is a variable. -/
 def wfList : List Pat → Bool
   | [] => true
   | p :: ps =>
       match p with
-      | .many sub => wfMany sub && wfSimples ps
+      | .many sub => wfMany sub && wfPost ps
       | .rest q => ps.isEmpty && (match q with | .var r => r != wildcard | _ => false)
       | p => wf1 p && wfList ps
 def wfMany : Pat → Bool
   | .var x => x != wildcard
-  | .nested qs => wfList qs && !(Pat.varsList qs).isEmpty
+  | .nested qs => wfList qs && !isManyRest qs && !(Pat.varsList qs).isEmpty
   | _ => false
 def wfSimples : List Pat → Bool
   | [] => true
   | p :: ps => wf1 p && wfSimples ps
+/-- What may follow an ellipsis: one-form patterns, optionally a dotted tail that is a variable. -/
+def wfPost : List Pat → Bool
+  | [] => true
+  | p :: ps =>
+      match p with
+      | .rest q => ps.isEmpty && (match q with | .var r => r != wildcard | _ => false)
+      | p => wf1 p && wfPost ps
 end
 
 mutual
@@ -518,8 +532,12 @@ theorem collectOne_frame : ∀ (p : Pat) (f : Sexp) (env0 e : Env),
           · rename_i heq; cases heq
           · split at h
             · rename_i m p
-              have := collectOne_frame p _ env0 e h
-              exact this.weaken (fun k hk => by simp [Pat.varsList, Pat.vars, hk])
+              have := (emptyMany_frame env0 m).trans (collectOne_frame p _ _ e h)
+              exact this.weaken (fun k hk => by
+                simp only [List.mem_append] at hk
+                cases hk with
+                | inl hk => simp [Pat.varsList, Pat.vars, hk]
+                | inr hk => simp [Pat.varsList, Pat.vars, hk])
             · cases h
       | kw k =>
           unfold collectOne at h
@@ -527,8 +545,12 @@ theorem collectOne_frame : ∀ (p : Pat) (f : Sexp) (env0 e : Env),
           · rename_i heq; cases heq
           · split at h
             · rename_i m p
-              have := collectOne_frame p _ env0 e h
-              exact this.weaken (fun k hk => by simp [Pat.varsList, Pat.vars, hk])
+              have := (emptyMany_frame env0 m).trans (collectOne_frame p _ _ e h)
+              exact this.weaken (fun k hk => by
+                simp only [List.mem_append] at hk
+                cases hk with
+                | inl hk => simp [Pat.varsList, Pat.vars, hk]
+                | inr hk => simp [Pat.varsList, Pat.vars, hk])
             · cases h
       | int k =>
           unfold collectOne at h
@@ -536,8 +558,12 @@ theorem collectOne_frame : ∀ (p : Pat) (f : Sexp) (env0 e : Env),
           · rename_i heq; cases heq
           · split at h
             · rename_i m p
-              have := collectOne_frame p _ env0 e h
-              exact this.weaken (fun k hk => by simp [Pat.varsList, Pat.vars, hk])
+              have := (emptyMany_frame env0 m).trans (collectOne_frame p _ _ e h)
+              exact this.weaken (fun k hk => by
+                simp only [List.mem_append] at hk
+                cases hk with
+                | inl hk => simp [Pat.varsList, Pat.vars, hk]
+                | inr hk => simp [Pat.varsList, Pat.vars, hk])
             · cases h
       | bool k =>
           unfold collectOne at h
@@ -545,8 +571,12 @@ theorem collectOne_frame : ∀ (p : Pat) (f : Sexp) (env0 e : Env),
           · rename_i heq; cases heq
           · split at h
             · rename_i m p
-              have := collectOne_frame p _ env0 e h
-              exact this.weaken (fun k hk => by simp [Pat.varsList, Pat.vars, hk])
+              have := (emptyMany_frame env0 m).trans (collectOne_frame p _ _ e h)
+              exact this.weaken (fun k hk => by
+                simp only [List.mem_append] at hk
+                cases hk with
+                | inl hk => simp [Pat.varsList, Pat.vars, hk]
+                | inr hk => simp [Pat.varsList, Pat.vars, hk])
             · cases h
 theorem collectItems_frame : ∀ (ps : List Pat) (ex tot : Nat) (imp : Bool) (rem : List Sexp) (env0 e : Env),
     collectItems ex tot imp ps rem env0 = .ok e → FrameP (Pat.varsList ps) env0 e
@@ -729,6 +759,39 @@ inductive Shape (qs : List Pat) : Prop where
       (hr : r ≠ wildcard)
   | many (pre : List Pat) (sub : Pat) (post : List Pat) (hq : qs = pre ++ .many sub :: post)
       (hpre : wfSimples pre = true) (hsub : wfMany sub = true) (hpost : wfSimples post = true)
+  | manyRest (pre : List Pat) (sub : Pat) (post : List Pat) (r : Name)
+      (hq : qs = pre ++ .many sub :: (post ++ [.rest (.var r)]))
+      (hpre : wfSimples pre = true) (hsub : wfMany sub = true) (hpost : wfSimples post = true)
+      (hr : r ≠ wildcard)
+
+theorem wfPost_shape : ∀ (ps : List Pat), wfPost ps = true →
+    wfSimples ps = true ∨ ∃ post r, ps = post ++ [Pat.rest (Pat.var r)] ∧ wfSimples post = true ∧ r ≠ wildcard
+  | [], _ => Or.inl rfl
+  | p :: ps, h => by
+      have step : wf1 p = true → wfPost ps = true →
+          wfSimples (p :: ps) = true ∨
+            ∃ post r, p :: ps = post ++ [Pat.rest (Pat.var r)] ∧ wfSimples post = true ∧ r ≠ wildcard := by
+        intro h1 h2
+        cases wfPost_shape ps h2 with
+        | inl hs => exact Or.inl (by simp [wfSimples, h1, hs])
+        | inr hr =>
+            obtain ⟨post, r, hq, hpost, hr⟩ := hr
+            exact Or.inr ⟨p :: post, r, by simp [hq], by simp [wfSimples, h1, hpost], hr⟩
+      cases p with
+      | rest q =>
+          simp only [wfPost, Bool.and_eq_true, List.isEmpty_iff] at h
+          obtain ⟨hps, hq⟩ := h
+          subst hps
+          cases q with
+          | var r => exact Or.inr ⟨[], r, rfl, rfl, by simpa [name_bne_iff] using hq⟩
+          | _ => simp at hq
+      | many x => simp [wfPost, wf1] at h
+      | var x => simp only [wfPost, Bool.and_eq_true] at h; exact step h.1 h.2
+      | lit x => simp only [wfPost, Bool.and_eq_true] at h; exact step h.1 h.2
+      | kwlit x => simp only [wfPost, Bool.and_eq_true] at h; exact step h.1 h.2
+      | cint x => simp only [wfPost, Bool.and_eq_true] at h; exact step h.1 h.2
+      | cbool x => simp only [wfPost, Bool.and_eq_true] at h; exact step h.1 h.2
+      | nested x => simp only [wfPost, Bool.and_eq_true] at h; exact step h.1 h.2
 
 theorem wfList_shape : ∀ (qs : List Pat), wfList qs = true → Shape qs
   | [], _ => .simples rfl
@@ -736,7 +799,11 @@ theorem wfList_shape : ∀ (qs : List Pat), wfList qs = true → Shape qs
       cases p with
       | many sub =>
           simp only [wfList, Bool.and_eq_true] at h
-          exact .many [] sub ps rfl rfl h.1 h.2
+          cases wfPost_shape ps h.2 with
+          | inl hs => exact .many [] sub ps rfl rfl h.1 hs
+          | inr hr =>
+              obtain ⟨post, r, hq, hpost, hr⟩ := hr
+              exact .manyRest [] sub post r (by simp [hq]) rfl h.1 hpost hr
       | rest q =>
           simp only [wfList, Bool.and_eq_true, List.isEmpty_iff] at h
           obtain ⟨hps, hq⟩ := h
@@ -751,6 +818,8 @@ theorem wfList_shape : ∀ (qs : List Pat), wfList qs = true → Shape qs
           | rest pre r hq hpre hr => exact .rest (.var x :: pre) r (by simp [hq]) (by simp [wfSimples, h.1, hpre]) hr
           | many pre sub post hq hpre hsub hpost =>
               exact .many (.var x :: pre) sub post (by simp [hq]) (by simp [wfSimples, h.1, hpre]) hsub hpost
+          | manyRest pre sub post r hq hpre hsub hpost hr =>
+              exact .manyRest (.var x :: pre) sub post r (by simp [hq]) (by simp [wfSimples, h.1, hpre]) hsub hpost hr
       | lit x =>
           simp only [wfList, Bool.and_eq_true] at h
           cases wfList_shape ps h.2 with
@@ -758,6 +827,8 @@ theorem wfList_shape : ∀ (qs : List Pat), wfList qs = true → Shape qs
           | rest pre r hq hpre hr => exact .rest (.lit x :: pre) r (by simp [hq]) (by simp [wfSimples, h.1, hpre]) hr
           | many pre sub post hq hpre hsub hpost =>
               exact .many (.lit x :: pre) sub post (by simp [hq]) (by simp [wfSimples, h.1, hpre]) hsub hpost
+          | manyRest pre sub post r hq hpre hsub hpost hr =>
+              exact .manyRest (.lit x :: pre) sub post r (by simp [hq]) (by simp [wfSimples, h.1, hpre]) hsub hpost hr
       | kwlit x =>
           simp only [wfList, Bool.and_eq_true] at h
           cases wfList_shape ps h.2 with
@@ -765,6 +836,8 @@ theorem wfList_shape : ∀ (qs : List Pat), wfList qs = true → Shape qs
           | rest pre r hq hpre hr => exact .rest (.kwlit x :: pre) r (by simp [hq]) (by simp [wfSimples, h.1, hpre]) hr
           | many pre sub post hq hpre hsub hpost =>
               exact .many (.kwlit x :: pre) sub post (by simp [hq]) (by simp [wfSimples, h.1, hpre]) hsub hpost
+          | manyRest pre sub post r hq hpre hsub hpost hr =>
+              exact .manyRest (.kwlit x :: pre) sub post r (by simp [hq]) (by simp [wfSimples, h.1, hpre]) hsub hpost hr
       | cint x =>
           simp only [wfList, Bool.and_eq_true] at h
           cases wfList_shape ps h.2 with
@@ -772,6 +845,8 @@ theorem wfList_shape : ∀ (qs : List Pat), wfList qs = true → Shape qs
           | rest pre r hq hpre hr => exact .rest (.cint x :: pre) r (by simp [hq]) (by simp [wfSimples, h.1, hpre]) hr
           | many pre sub post hq hpre hsub hpost =>
               exact .many (.cint x :: pre) sub post (by simp [hq]) (by simp [wfSimples, h.1, hpre]) hsub hpost
+          | manyRest pre sub post r hq hpre hsub hpost hr =>
+              exact .manyRest (.cint x :: pre) sub post r (by simp [hq]) (by simp [wfSimples, h.1, hpre]) hsub hpost hr
       | cbool x =>
           simp only [wfList, Bool.and_eq_true] at h
           cases wfList_shape ps h.2 with
@@ -779,6 +854,8 @@ theorem wfList_shape : ∀ (qs : List Pat), wfList qs = true → Shape qs
           | rest pre r hq hpre hr => exact .rest (.cbool x :: pre) r (by simp [hq]) (by simp [wfSimples, h.1, hpre]) hr
           | many pre sub post hq hpre hsub hpost =>
               exact .many (.cbool x :: pre) sub post (by simp [hq]) (by simp [wfSimples, h.1, hpre]) hsub hpost
+          | manyRest pre sub post r hq hpre hsub hpost hr =>
+              exact .manyRest (.cbool x :: pre) sub post r (by simp [hq]) (by simp [wfSimples, h.1, hpre]) hsub hpost hr
       | nested x =>
           simp only [wfList, Bool.and_eq_true] at h
           cases wfList_shape ps h.2 with
@@ -786,6 +863,8 @@ theorem wfList_shape : ∀ (qs : List Pat), wfList qs = true → Shape qs
           | rest pre r hq hpre hr => exact .rest (.nested x :: pre) r (by simp [hq]) (by simp [wfSimples, h.1, hpre]) hr
           | many pre sub post hq hpre hsub hpost =>
               exact .many (.nested x :: pre) sub post (by simp [hq]) (by simp [wfSimples, h.1, hpre]) hsub hpost
+          | manyRest pre sub post r hq hpre hsub hpost hr =>
+              exact .manyRest (.nested x :: pre) sub post r (by simp [hq]) (by simp [wfSimples, h.1, hpre]) hsub hpost hr
 
 
 end SteelVerif.C13
